@@ -54,8 +54,10 @@ def run(ctx):
                        "absent types, too few names, T=*S, non-struct T, foci inside pointer-embedded structs; one unknown name at every position of a 2..9-name derivation whose focus type there is the "
                        "type of the container's first field; 1..N-1 explicit names for N foci whose types all occur in the shape, named fields preferably not the first of their type) "
                        "and Reflector Gett/Putt calls with foreign dynamic values; an accepted derivation of the last two classes is probed (Put on a guard-wrapped value, written window reported); "
-                       "non-trivial = every request except the positive controls; distinct by (shape s-expression, request)")
-    ctx.assumptions += ["gc/amd64 struct layout and reflect's field description are modelled (Model/Layout), validated against the compiler on every generated shape",
+                       "non-trivial = every request except the positive controls; distinct by (shape s-expression, request)" + S.TWIN_RULE +
+                       "; on such a container additionally: derivations asked for with a (name, focus type) pair / a focus type that only ANOTHER member of its group has (must panic), "
+                       "and with the fields both have in common (control: the window must be this container's)")
+    ctx.assumptions += [S.TWIN_ASSUMPTION, "gc/amd64 struct layout and reflect's field description are modelled (Model/Layout), validated against the compiler on every generated shape",
                         "type identity (String()== && AssignableTo) is equality of GoType descriptions whose defined types carry import path + name; a fraction of the shapes lists distinct types that reflect prints identically (same-named types of harness/pa/v1, pb/v1, pc/v1 and composites of them; no interface/channel kinds) - see distribution.colliding_types",
                         "variadic attr has cap == len (explicit arguments), so attr[0:N] panics exactly when fewer than N names are given",
                         "the model is faithful to today's code: derive_ok_or_panic holds only as _partial; the remaining defect class (focus inside a pointer-embedded struct) is proved present in the model and reported as known finding when reproduced; a pointer container must panic (F6 repaired)"]
@@ -96,6 +98,8 @@ def run(ctx):
                 ctx.hist("arity", len(meta["types"]))
                 ctx.hist("outcome", res.split()[0] if res.startswith("panic") else "accepted")
                 ctx.hist("demanded", d[0] if d[0] != "defect" else d[1])
+                if sh.twins:
+                    ctx.hist("same_printing_container_derivation", "container unfolded first" if sh.twin_pos == 0 else "after a same-printing container (%s)" % sh.twin_relation)
                 if meta["why"] == "unknown-name-first-type":
                     ctx.hist("unknown_name_position_of_n", "%d/%d" % (meta["pos"] + 1, len(meta["types"])))
                 elif meta["why"] == "short-names-by-type-ok":
